@@ -74,6 +74,7 @@ type txRun struct {
 }
 
 var curTable *table
+var blockModelCases int
 var curSpec *caseSpec
 var totalFailedNested, totalStaticNested, rootChecks, totalOOG, totalDeposit int
 
@@ -615,10 +616,11 @@ func main() {
 	for i := 0; i < a.N/2; i++ {
 		runStaticCase(rng.U64(), res)
 	}
+	blockModelCases = blockCases(res, a.Out)
 	customStatic(res)
 	prepareDirect(res)
 	tableCase(a.Out, res)
-	res.ModelCases = cs.Total() + tableCases
+	res.ModelCases = cs.Total() + tableCases + blockModelCases
 	res.Note(fmt.Sprintf("nested frames checked by probes: %d failed frames, %d static frames; %d frames ran out of gas, %d code deposits failed; %d state-root comparisons (failed top-level calls left out)", totalFailedNested, totalStaticNested, totalOOG, totalDeposit, rootChecks))
 	res.Write(a.Out)
 	fmt.Printf("c12: %d evaluations, %d model cases, distinct nontrivial %d\n", res.Evaluations, res.ModelCases, res.DistinctNontrivial)
